@@ -13,7 +13,7 @@ import (
 )
 
 func init() {
-	props["C18"] = &propDef{run: runC18, explanation: "Partial. Decided statically: (O1) every comparator handed to sort.Slice/SliceStable in the metadata package is, on all weak orderings of (time_i, time_j, number_i, number_j), exactly time_i < time_j ∨ (time_i = time_j ∧ number_i < number_j) — the lexicographic anchoring order (finite, exhaustive); the version provider's comparator is a strict order on its single key; (T1) the transformer's purpose switch maps each of the five purposes to its own relationship and covers every purpose the patch validator admits; the key-context table covers every key type the validator admits; (P1) the verification-method literal (id = getObjectID(did, key id), type, controller = did), getObjectID (relative '#id' under @base, did+'#id' otherwise), exactly one append of the method per key and of each reference per purpose, the key-material table per key type, service id/type/endpoint plus copy of every other member; (P2) the metadata field mapping (method metadata, document metadata, published/unpublished operation literals field by field, de-duplication by canonical reference, both lists sorted before use). Not decided: counting statements over arbitrary documents beyond the one-append-per-iteration shape. The context of the key's type is looked up for every key (for-all loop form); each metadata member is stored under conditions on its own source only. The comparator of a sortedness test is held to the same order; the @base context entry is added under exactly the includeBase flag. No equivalent id reported for an unpublished document carries the initial state. canonicalId / equivalentId of a published document are unconditional and the canonical id is always an equivalent id; object ids are decided in concatenation form under both values of the @base flag; the key-material table is evaluated on all assignments of its atoms."}
+	props["C18"] = &propDef{run: runC18, explanation: "Partial. Decided statically: (O1) every comparator handed to sort.Slice/SliceStable in the metadata package is, on all weak orderings of (time_i, time_j, number_i, number_j), exactly time_i < time_j ∨ (time_i = time_j ∧ number_i < number_j) — the lexicographic anchoring order (finite, exhaustive); the version provider's comparator is a strict order on its single key; (T1) the transformer's purpose switch maps each of the five purposes to its own relationship and covers every purpose the patch validator admits; the key-context table covers every key type the validator admits; (P1) the verification-method literal (id = getObjectID(did, key id), type, controller = did), getObjectID (relative '#id' under @base, did+'#id' otherwise), exactly one append of the method per key and of each reference per purpose, the key-material table per key type, service id/type/endpoint plus copy of every other member; (P2) the metadata field mapping (method metadata, document metadata, published/unpublished operation literals field by field, de-duplication by canonical reference, both lists sorted before use). Not decided: counting statements over arbitrary documents beyond the one-append-per-iteration shape. The context of the key's type is looked up for every key (for-all loop form); each metadata member is stored under conditions on its own source only. The comparator of a sortedness test is held to the same order; the @base context entry is added under exactly the includeBase flag. No equivalent id reported for an unpublished document carries the initial state. canonicalId / equivalentId of a published document are unconditional and the canonical id is always an equivalent id; object ids are decided in concatenation form under both values of the @base flag; the key-material table is evaluated on all assignments of its atoms. Both transformer steps precede every accepting exit; key-type contexts are de-duplicated by equality; the generic transformer stores nothing over the id."}
 }
 
 func (c *Ctx) sortComparators(pkgRel string) []*ssa.Function {
@@ -170,6 +170,16 @@ func runC18(c *Ctx) {
 				x = y.X
 			case *ssa.Slice:
 				x = y.X
+			}
+			if cl, isC := in.(*ssa.Call); isC && cl != sortCall {
+				// the list handed to a module function that walks it (a filter / de-duplication helper)
+				if g := cl.Call.StaticCallee(); g != nil && inModule(g) {
+					for _, a := range cl.Call.Args {
+						if c.Path(a, nil) == "$0" {
+							x = a
+						}
+					}
+				}
 			}
 			if x == nil || c.Path(x, nil) != "$0" {
 				return
@@ -780,6 +790,7 @@ func (c *Ctx) keyMaterialTable(pk *ssa.Function) {
 	}
 	var trows []trow
 	var undecided []string
+	typeAtom := map[string]string{`"Ed25519VerificationKey2018"`: "t2018", `"Ed25519VerificationKey2020"`: "t2020"}
 	// pathAssignments: the partial assignments of the atoms under which blk is reached from the entry of its function
 	// (every acyclic path; a path that needs an atom both ways is infeasible). Conditions that are not atoms but mention
 	// the key's accessors are reported.
@@ -833,7 +844,56 @@ func (c *Ctx) keyMaterialTable(pk *ssa.Function) {
 				if neg {
 					pol = !pol
 				}
-				if !isAtom && !strings.Contains(cp, "#1") && (strings.Contains(cp, ").Type(") || strings.Contains(cp, "PublicKeyJwk(") || strings.Contains(cp, "PublicKeyBase58(") || strings.Contains(cp, "PublicKeyMultibase(")) {
+				// "the key's type has an entry in the table of encoders": false means it is none of the table's types
+				if ex, isEx := cond.(*ssa.Extract); isEx && ex.Index == 1 && !isAtom {
+					if lk, isLk := ex.Tuple.(*ssa.Lookup); isLk {
+						if _, tbl := c.tableCallees(extractOf2(lk, 0)); len(tbl) > 0 && strings.HasSuffix(keyElemRe.ReplaceAllString(c.Path(lk.Index, env), "k"), ").Type(k)") {
+							notFound := 1
+							if neg {
+								notFound = 0
+							}
+							for si, sc := range b.Succs {
+								if sc.Dominates(b) {
+									continue
+								}
+								for _, m := range cur {
+									nm := m
+									if si == notFound {
+										nm = map[string]bool{}
+										for k2, v2 := range m {
+											nm[k2] = v2
+										}
+										conflict := false
+										for kp := range tbl {
+											at := typeAtom[kp]
+											if at == "" {
+												undecided = append(undecided, "table key "+kp)
+												continue
+											}
+											if have, set := nm[at]; set && have {
+												conflict = true
+											}
+											nm[at] = false
+										}
+										if conflict {
+											continue
+										}
+									}
+									if states[sc] == nil {
+										states[sc] = map[string]map[string]bool{}
+									}
+									states[sc][enc(nm)] = nm
+								}
+							}
+							continue
+						}
+					}
+				}
+				isErrTest := false
+				if bo, isB := cond.(*ssa.BinOp); isB && (isErrType(bo.X.Type()) || isErrType(bo.Y.Type())) {
+					isErrTest = true
+				}
+				if !isAtom && !isErrTest && !strings.Contains(cp, "#1") && (strings.Contains(cp, ").Type(") || strings.Contains(cp, "PublicKeyJwk(") || strings.Contains(cp, "PublicKeyBase58(") || strings.Contains(cp, "PublicKeyMultibase(")) {
 					undecided = append(undecided, cp)
 				}
 			}
@@ -874,6 +934,7 @@ func (c *Ctx) keyMaterialTable(pk *ssa.Function) {
 		}
 		return out
 	}
+	var emitBase []map[string]bool
 	var emit func(blk *ssa.BasicBlock, env Env, k, v string)
 	emit = func(blk *ssa.BasicBlock, env Env, k, v string) {
 		if k != "publicKeyJwk" && k != "publicKeyBase58" && k != "publicKeyMultibase" {
@@ -897,7 +958,27 @@ func (c *Ctx) keyMaterialTable(pk *ssa.Function) {
 			val = v
 		}
 		for _, m := range pathAssignments(blk, env) {
-			trows = append(trows, trow{m, k, val})
+			// (a row produced inside a table entry's function: the conditions of the call site and the entry's key apply too)
+			bases := []map[string]bool{{}}
+			if emitBase != nil {
+				bases = emitBase
+			}
+			for _, base := range bases {
+				mm := map[string]bool{}
+				okM := true
+				for a, v := range base {
+					mm[a] = v
+				}
+				for a, v := range m {
+					if have, set := mm[a]; set && have != v {
+						okM = false
+					}
+					mm[a] = v
+				}
+				if okM {
+					trows = append(trows, trow{mm, k, val})
+				}
+			}
 		}
 	}
 	for _, job := range jobs {
@@ -909,8 +990,50 @@ func (c *Ctx) keyMaterialTable(pk *ssa.Function) {
 			}
 			// the member and its value chosen by a helper that hands both back: one row per accepting exit of the helper
 			if ke, isKE := mu.Key.(*ssa.Extract); isKE {
-				if ve, isVE := mu.Value.(*ssa.Extract); isVE && ve.Tuple == ke.Tuple {
+				muVal := mu.Value
+				if mi, isMI := muVal.(*ssa.MakeInterface); isMI {
+					muVal = mi.X
+				}
+				if ve, isVE := muVal.(*ssa.Extract); isVE && ve.Tuple == ke.Tuple {
 					if hc, isC := ke.Tuple.(*ssa.Call); isC {
+						// … chosen by a function looked up in a package-level table keyed by the key's type: one row per
+						// entry and accepting exit, under the call site's conditions and "the type is that entry's key"
+						if lk, tbl := c.tableCallees(hc.Call.Value); lk != nil && len(tbl) > 0 && strings.HasSuffix(keyElemRe.ReplaceAllString(c.Path(lk.Index, env), "k"), ").Type(k)") {
+							okTbl := true
+							for kp := range tbl {
+								if typeAtom[kp] == "" {
+									okTbl = false
+								}
+							}
+							if okTbl {
+								site := pathAssignments(mu.Block(), env)
+								for kp, g := range tbl {
+									if g.Blocks == nil {
+										continue
+									}
+									var bases []map[string]bool
+									for _, sa := range site {
+										b := map[string]bool{}
+										for a, v := range sa {
+											b[a] = v
+										}
+										for _, at := range typeAtom {
+											b[at] = at == typeAtom[kp]
+										}
+										bases = append(bases, b)
+									}
+									genv := c.calleeEnv(&hc.Call, g, env)
+									emitBase = bases
+									for _, r := range returnsOf(g) {
+										if maySucceed(r) && ke.Index < len(r.Results) && ve.Index < len(r.Results) {
+											emit(r.Block(), genv, unquote(c.Path(returnedValue(r, ke.Index), genv)), c.Path(returnedValue(r, ve.Index), genv))
+										}
+									}
+									emitBase = nil
+								}
+								return
+							}
+						}
 						if g := hc.Call.StaticCallee(); g != nil && inModule(g) && g.Blocks != nil {
 							genv := c.calleeEnv(&hc.Call, g, env)
 							for _, r := range returnsOf(g) {
@@ -1031,56 +1154,74 @@ func (c *Ctx) metadataMapping(pMeta string) {
 		via *ssa.Call
 	}
 	var hstores []hstore
-	forEachInstr(host, func(in ssa.Instruction) {
-		cl, ok := in.(*ssa.Call)
-		if !ok {
-			return
-		}
-		g := cl.Call.StaticCallee()
-		if g == nil || !inModule(g) || g.Blocks == nil || g.Object() == nil || g.Object().Exported() || pkgPathOf(g) != pkgPathOf(host) {
-			return
-		}
-		// … or a helper that makes a map, fills it and hands it back (the method-metadata part built on its own)
-		genvR := c.calleeEnv(&cl.Call, g, henv)
-		for _, r := range successReturns(g) {
-			if len(r.Results) == 0 {
-				continue
+	// (helpers called by the function that fills the document metadata, and — when that is itself a phase of
+	// CreateDocumentMetadata — the other phases CreateDocumentMetadata calls)
+	type scanFrom struct {
+		f   *ssa.Function
+		env Env
+	}
+	froms := []scanFrom{{host, henv}}
+	if host != cdm {
+		froms = append(froms, scanFrom{cdm, nil})
+	}
+	for _, from := range froms {
+		from := from
+		forEachInstr(from.f, func(in ssa.Instruction) {
+			henv := from.env
+			cl, ok := in.(*ssa.Call)
+			if !ok {
+				return
 			}
-			mm, isMM := stripConv(returnedValue(r, 0)).(*ssa.MakeMap)
-			if !isMM {
-				continue
+			g := cl.Call.StaticCallee()
+			if g == nil || g == host || !inModule(g) || g.Blocks == nil || g.Object() == nil || g.Object().Exported() || pkgPathOf(g) != pkgPathOf(host) {
+				return
 			}
-			for _, rf := range *mm.Referrers() {
-				if mu, isMU := rf.(*ssa.MapUpdate); isMU && mu.Map == ssa.Value(mm) {
-					if k := c.Path(mu.Key, genvR); strings.HasPrefix(k, `"`) {
-						dup := false
-						for _, h := range hstores {
-							if h.mu == mu {
-								dup = true
+			// … or a helper that makes a map, fills it and hands it back (the method-metadata part built on its own)
+			c.inlineHelpers = true // (arguments that come out of a one-exit phase read as what that phase returns)
+			genvR := c.calleeEnv(&cl.Call, g, henv)
+			c.inlineHelpers = false
+			for _, r := range successReturns(g) {
+				if len(r.Results) == 0 {
+					continue
+				}
+				mm, isMM := stripConv(returnedValue(r, 0)).(*ssa.MakeMap)
+				if !isMM {
+					continue
+				}
+				for _, rf := range *mm.Referrers() {
+					if mu, isMU := rf.(*ssa.MapUpdate); isMU && mu.Map == ssa.Value(mm) {
+						if k := c.Path(mu.Key, genvR); strings.HasPrefix(k, `"`) {
+							dup := false
+							for _, h := range hstores {
+								if h.mu == mu {
+									dup = true
+								}
+							}
+							if !dup {
+								hstores = append(hstores, hstore{mu, genvR, cl})
 							}
 						}
-						if !dup {
-							hstores = append(hstores, hstore{mu, genvR, cl})
+					}
+				}
+			}
+			for i, a := range cl.Call.Args {
+				if _, isMM := a.(*ssa.MakeMap); !isMM || i >= len(g.Params) {
+					continue
+				}
+				p := g.Params[i]
+				c.inlineHelpers = true
+				genv := c.calleeEnv(&cl.Call, g, henv)
+				c.inlineHelpers = false
+				forEachInstr(g, func(in2 ssa.Instruction) {
+					if mu, isMU := in2.(*ssa.MapUpdate); isMU && mu.Map == ssa.Value(p) {
+						if k := c.Path(mu.Key, genv); strings.HasPrefix(k, `"`) {
+							hstores = append(hstores, hstore{mu, genv, cl})
 						}
 					}
-				}
+				})
 			}
-		}
-		for i, a := range cl.Call.Args {
-			if _, isMM := a.(*ssa.MakeMap); !isMM || i >= len(g.Params) {
-				continue
-			}
-			p := g.Params[i]
-			genv := c.calleeEnv(&cl.Call, g, henv)
-			forEachInstr(g, func(in2 ssa.Instruction) {
-				if mu, isMU := in2.(*ssa.MapUpdate); isMU && mu.Map == ssa.Value(p) {
-					if k := c.Path(mu.Key, genv); strings.HasPrefix(k, `"`) {
-						hstores = append(hstores, hstore{mu, genv, cl})
-					}
-				}
-			})
-		}
-	})
+		})
+	}
 	forEachInstr(host, func(in ssa.Instruction) {
 		if mu, ok := in.(*ssa.MapUpdate); ok {
 			if _, isK := mu.Key.(*ssa.Const); isK {
@@ -1095,9 +1236,6 @@ func (c *Ctx) metadataMapping(pMeta string) {
 			}
 		}
 	})
-	for _, hs := range hstores {
-		ups = append(ups, upd{unquote(c.Path(hs.mu.Key, hs.env)), c.Path(hs.mu.Value, hs.env)})
-	}
 	want := map[string]func(string) bool{
 		"published":             func(s string) bool { return s == `$2["published"]#0` },
 		"recoveryCommitment":    pathIs("$1.RecoveryCommitment"),
@@ -1114,6 +1252,16 @@ func (c *Ctx) metadataMapping(pMeta string) {
 		"created":      func(s string) bool { return strings.Contains(s, "$1.CreatedTime") },
 		"versionId":    pathIs("$1.VersionID"),
 		"updated":      func(s string) bool { return strings.Contains(s, "$1.UpdatedTime") },
+	}
+	for _, hs := range hstores {
+		k, v := unquote(c.Path(hs.mu.Key, hs.env)), c.Path(hs.mu.Value, hs.env)
+		// (a value handed through a one-exit validation / extraction phase reads as what that phase returns)
+		if p, known := want[k]; known && !p(v) {
+			if v2 := c.InlPath(hs.mu.Value, hs.env); p(v2) {
+				v = v2
+			}
+		}
+		ups = append(ups, upd{k, v})
 	}
 	seen := map[string]bool{}
 	for _, u := range ups {
@@ -1147,7 +1295,12 @@ func (c *Ctx) metadataMapping(pMeta string) {
 		"updated":               {"VersionID", "UpdatedTime"},
 	}
 	loopControl := regexp.MustCompile(`^\((len\(.*\) <= ι|ι < len\(.*\))\)=true$`)
+	errNilRe := regexp.MustCompile(`^\([^ ]*versions/1_0/doctransformer/metadata\.[A-Za-z]+\(.*\)#\d == nil\)=true$`)
 	entryGuard := func(cnd string) bool {
+		// (the validation phase succeeded)
+		if errNilRe.MatchString(cnd) {
+			return true
+		}
 		return loopControl.MatchString(cnd) || strings.HasPrefix(cnd, "($1 ") || strings.HasPrefix(cnd, "($1.Doc ") || strings.HasPrefix(cnd, "($2 ") || cnd == `$2["published"]#1=true`
 	}
 	condCheck := func(mu *ssa.MapUpdate, env Env, via *ssa.Call) {
@@ -1242,6 +1395,21 @@ func (c *Ctx) metadataMapping(pMeta string) {
 				c.setOps(mm, nil, 0, look, fill)
 				if look["$0[ι].CanonicalReference"] && fill["$0[ι].CanonicalReference"] && len(look) == 1 && len(fill) == 1 {
 					dd = true
+				}
+			}
+			// … or inside a de-duplication helper that is handed the list and the key function
+			if cl, isC := in.(*ssa.Call); isC {
+				if g := cl.Call.StaticCallee(); g != nil && inModule(g) && g.Blocks != nil && len(cl.Call.Args) > 0 && c.Path(cl.Call.Args[0], nil) == "$0" {
+					genv := c.calleeEnv(&cl.Call, g, nil)
+					forEachInstr(g, func(in2 ssa.Instruction) {
+						if mm, ok := in2.(*ssa.MakeMap); ok {
+							look, fill := map[string]bool{}, map[string]bool{}
+							c.setOps(mm, genv, 0, look, fill)
+							if look["$0[ι].CanonicalReference"] && fill["$0[ι].CanonicalReference"] && len(look) == 1 && len(fill) == 1 {
+								dd = true
+							}
+						}
+					})
 				}
 			}
 		})
@@ -1364,11 +1532,17 @@ func (c *Ctx) genericIDRule(rule string) {
 	}
 	c.Analysed(td)
 	var idStore *ssa.MapUpdate
-	forEachInstr(td, func(in ssa.Instruction) {
-		if mu, ok := in.(*ssa.MapUpdate); ok && c.Path(mu.Key, nil) == `"id"` && strings.Contains(c.Path(mu.Value, nil), `["id"]`) {
-			idStore = mu
-		}
-	})
+	// (the body may sit in an unexported function the method forwards to)
+	for _, h := range append([]*ssa.Function{td}, c.helpersOf(td, 2)...) {
+		forEachInstr(h, func(in ssa.Instruction) {
+			if mu, ok := in.(*ssa.MapUpdate); ok && c.Path(mu.Key, nil) == `"id"` && strings.Contains(c.Path(mu.Value, nil), `["id"]`) {
+				idStore = mu
+			}
+		})
+	}
+	if idStore != nil {
+		td = idStore.Parent()
+	}
 	if idStore == nil {
 		c.Check(rule, "generic:id-from-transformation-info", false, td.Pos(), "no store of info[\"id\"] under \"id\" into the result document")
 		return
